@@ -234,6 +234,10 @@ def run_case(rec, k):
                 rvals = [F(100000)] if c["rk"] == "int" or c["ldt"] == "i4" else [F(10) ** 30]
                 lvals = [F(50000), F(30000)][:len(lvals)] if len(lvals) <= 2 else lvals
                 larr = np.array([int(v) if larr.dtype.kind in "iu" else float(v) for v in lvals], dtype=larr.dtype).reshape(larr.shape)
+            elif c["rk"] == "int" and c["op"] in ("mul", "div") and c["ldt"] == "f8" and c["ru"] % 2 == 1:
+                # a Python int beyond 64 bits (10**20, a scale factor typed without the dot): the same quantity as 1e20
+                special = "huge"
+                rvals = [F(10) ** 20]
             elif c["op"] != "div":
                 special = "zero"          # the number zero is a dimensionless quantity like any other number
                 rvals = [F(0)]
